@@ -88,7 +88,7 @@ func (vc *VC) callModular(fr *Frame, st *State, fn *ssa.Function, fc *FuncContra
 	cf.entrySt = pre
 	site := vc.posOf(pos)
 	for _, c := range fc.Clauses {
-		if c.Kind != "requires" {
+		if c.Kind != "requires" || c.Case != "" {
 			continue
 		}
 		t := vc.evalSpecTerm(cf, st, c.Expr, nil)
@@ -98,7 +98,7 @@ func (vc *VC) callModular(fr *Frame, st *State, fn *ssa.Function, fc *FuncContra
 	var outs []Outcome
 	// panics_when: fork a panicking outcome
 	for _, c := range fc.Clauses {
-		if c.Kind != "panics_when" {
+		if c.Kind != "panics_when" || c.Case != "" {
 			continue
 		}
 		t := vc.evalSpecTerm(cf, st, c.Expr, nil)
@@ -136,52 +136,86 @@ func (vc *VC) callModular(fr *Frame, st *State, fn *ssa.Function, fc *FuncContra
 			}
 		}
 	}
-	var rets []Val
 	rs := fn.Signature.Results()
-	if fc.Opaque {
-		rets = vc.ufCall(funcSym(fn), fn.Signature, args)
-	} else if fc.Pure {
-		// deterministic function: the same (syntactic) arguments give the same result
-		// constants, so repeated evaluation in specs and bodies denotes one value
-		key := funcSym(fn)
-		for _, a := range args {
-			if fv, ok := a.(FuncVal); ok {
-				if fv.Fn != nil {
-					key += "|" + funcSym(fv.Fn)
-				} else {
-					key += "|" + fv.Sym
+	// pointer-typed results may be nil or point to a fresh object: one outcome per choice
+	var ptrIdx []int
+	if !fc.Opaque && !fc.Pure {
+		for i := 0; i < rs.Len(); i++ {
+			if _, ok := rs.At(i).Type().Underlying().(*types.Pointer); ok {
+				ptrIdx = append(ptrIdx, i)
+			}
+		}
+	}
+	nvar := 1 << uint(len(ptrIdx))
+	for variant := 0; variant < nvar; variant++ {
+		vst := st
+		if variant < nvar-1 {
+			vst = st.Clone()
+		}
+		var rets []Val
+		if fc.Opaque {
+			rets = vc.ufCall(funcSym(fn), fn.Signature, args)
+		} else if fc.Pure {
+			// deterministic function: the same (syntactic) arguments give the same result
+			// constants, so repeated evaluation in specs and bodies denotes one value
+			key := funcSym(fn)
+			for _, a := range args {
+				if fv, ok := a.(FuncVal); ok {
+					if fv.Fn != nil {
+						key += "|" + funcSym(fv.Fn)
+					} else {
+						key += "|" + fv.Sym
+					}
+					continue
 				}
-				continue
+				for _, t := range vc.flattenVal(a) {
+					key += "|" + t.E
+				}
 			}
-			for _, t := range vc.flattenVal(a) {
-				key += "|" + t.E
+			if vc.pureCache == nil {
+				vc.pureCache = map[string][]Val{}
 			}
-		}
-		if vc.pureCache == nil {
-			vc.pureCache = map[string][]Val{}
-		}
-		if r, ok := vc.pureCache[key]; ok {
-			rets = r
+			if r, ok := vc.pureCache[key]; ok {
+				rets = r
+			} else {
+				for i := 0; i < rs.Len(); i++ {
+					rets = append(rets, vc.fresh(rs.At(i).Type(), fnKey(fn)+"."+resultNames(fn)[i], vst))
+				}
+				vc.pureCache[key] = rets
+			}
 		} else {
 			for i := 0; i < rs.Len(); i++ {
-				rets = append(rets, vc.fresh(rs.At(i).Type(), fnKey(fn)+"."+resultNames(fn)[i], st))
+				isNilVariant := false
+				for k, pi := range ptrIdx {
+					if pi == i && variant&(1<<uint(k)) != 0 {
+						isNilVariant = true
+					}
+				}
+				if isNilVariant {
+					rets = append(rets, PtrVal{})
+				} else {
+					rets = append(rets, vc.fresh(rs.At(i).Type(), fnKey(fn)+"."+resultNames(fn)[i], vst))
+				}
 			}
-			vc.pureCache[key] = rets
 		}
-	} else {
-		for i := 0; i < rs.Len(); i++ {
-			rets = append(rets, vc.fresh(rs.At(i).Type(), fnKey(fn)+"."+resultNames(fn)[i], st))
+		bound := vc.bindResults(fn, rets)
+		for _, c := range fc.Clauses {
+			if c.Kind != "ensures" && c.Kind != "assumes" {
+				continue
+			}
+			if c.Case != "" {
+				continue // scenario-specific guarantees are not available to callers
+			}
+			if c.Kind == "assumes" {
+				vc.assume("A-DET")
+			}
+			t := vc.evalSpecTerm(cf, vst, c.Expr, bound)
+			vst.Fact(t)
+		}
+		if !vst.Infeasible() {
+			outs = append(outs, Outcome{St: vst, Ret: rets})
 		}
 	}
-	bound := vc.bindResults(fn, rets)
-	for _, c := range fc.Clauses {
-		if c.Kind != "ensures" {
-			continue
-		}
-		t := vc.evalSpecTerm(cf, st, c.Expr, bound)
-		st.Fact(t)
-	}
-	outs = append(outs, Outcome{St: st, Ret: rets})
 	return outs
 }
 
